@@ -11,7 +11,8 @@ Functional expression trees (plain JSON)::
 
     {"t": "leaf", "name": "f_l1", "params": {...}}
     {"t": "translated", "f": T, "y": VEC}
-    {"t": "argscale", "f": T, "s": float | VEC}
+    {"t": "argscale", "f": T, "s": float | VEC | {"re": a, "im": b},
+     "as": "element" | "list" | "array"}   # form of a VEC scaling (factory)
     {"t": "leftscale", "f": T, "s": float}
     {"t": "quadpert", "f": T, "a": float, "u": VEC | null, "c": float}
     {"t": "addconst", "f": T, "c": float}
@@ -20,6 +21,12 @@ Functional expression trees (plain JSON)::
     {"t": "bregman", "f": T, "point": VEC}
     {"t": "compose", "f": T, "op": {"kind": "scaling", "s": s} |
                                    {"kind": "orth", "seed": k, "c": c}}
+
+Rule nodes of the functional mode may carry ``"via": "class"``: the rule is
+built with the documented class constructor (`FunctionalTranslation`,
+`FunctionalRightScalarMult`, `FunctionalLeftScalarMult`,
+`FunctionalScalarSum`, `BregmanDistance`) instead of the operator syntax /
+method.  On complex spaces flat vectors are real-ified ((re, im) pairs).
 
 with VEC = {"data": [flat list]} | {"gen": {"seed": s, "scale": a, "kind":
 "normal" | "pos"}}.  ``mode`` = "factory" builds everything with the functions
@@ -119,6 +126,8 @@ class Entry(object):
     weight = 1
     scale_cap = 30.0       # largest magnitude of x entries
     callable_only = False  # factory returns a plain callable, no Operator
+    complex_ok = False     # objective defined through |x_i| (modulus) only:
+    #                        also generated on complex spaces
 
     classes = ({},)        # parameter classes enumerated by the sweep
 
@@ -178,6 +187,7 @@ class _NormFactory(Entry):
     kinds = ('T', 'P', 'G')
     fun = None
     weight = 3
+    complex_ok = True
     classes = ({'g': None}, {'g': '__vec__'})
 
     def params(self, draw, rsp):
@@ -250,6 +260,9 @@ class FCCL1(_ConjFactory):
     sigma_kinds = ('scalar', 'element', 'arraylike')
 
     def conj(self, rsp, lam):
+        if rsp.cplx:
+            # { |y_i| <= lam } with the complex modulus
+            return R.RIndLpBall(rsp, INF, lam)
         return R.RIndBox(rsp, -lam, lam)
 
 
@@ -278,6 +291,7 @@ class FCCL1L2(_ConjFactory):
 
 class FLinf(Entry):
     name, mode = 'f_linf', 'factory'
+    complex_ok = True
     weight = 2
 
     def odl(self, space, p, n):
@@ -289,6 +303,7 @@ class FLinf(Entry):
 
 class FCCLinf(Entry):
     name, mode = 'f_cc_linf', 'factory'
+    complex_ok = True
     weight = 2
 
     def odl(self, space, p, n):
@@ -323,13 +338,24 @@ def _box_params(draw, rsp, kind=None):
             hi = {'data': [float(t) for t in np.maximum(v1, v2)]}
             if kind[0] == 's':
                 lo = float(min(a, np.min(np.maximum(v1, v2))))
-    return {'lower': lo, 'upper': hi, 'kind': kind}
+    p = {'lower': lo, 'upper': hi, 'kind': kind}
+    if 'e' in kind:
+        # documented: "``space`` element-like" - elements, or nested
+        # lists / arrays that ``space.element`` accepts
+        p['like'] = draw(st.sampled_from(['element', 'element', 'list',
+                                          'array']))
+    return p
 
 
-def _box_arg(space, b):
+def _box_arg(space, b, like='element'):
     if b is None or not isinstance(b, dict):
         return b
-    return flat.unflat(vec(b, flat.rdim(space)), space)
+    el = flat.unflat(vec(b, flat.rdim(space)), space)
+    if like == 'element' or not hasattr(el, 'asarray') or \
+            isinstance(space, odl.ProductSpace):
+        return el
+    arr = np.array(el.asarray())
+    return arr.tolist() if like == 'list' else arr
 
 
 def _box_ref(rsp, p):
@@ -352,9 +378,10 @@ class FBox(Entry):
         return 'f_box({})'.format(p['kind'])
 
     def odl(self, space, p, n):
+        like = p.get('like', 'element')
         return PO.proximal_box_constraint(
-            space, lower=_box_arg(space, p['lower']),
-            upper=_box_arg(space, p['upper'])), None
+            space, lower=_box_arg(space, p['lower'], like),
+            upper=_box_arg(space, p['upper'], like)), None
 
     def ref(self, rsp, p):
         return _box_ref(rsp, p)
@@ -392,6 +419,7 @@ class FNonneg(Entry):
 
 class FConst(Entry):
     name, mode = 'f_const', 'factory'
+    complex_ok = True
     kinds = ('T', 'P', 'G')
     weight = 0.5
 
@@ -404,6 +432,7 @@ class FConst(Entry):
 
 class FHuber(Entry):
     name, mode = 'f_huber', 'factory'
+    complex_ok = True
     kinds = ('T', 'P')
     weight = 3
     classes = ({'gamma': 0.0}, {'gamma': 0.4}, {'gamma': 2.5})
@@ -510,6 +539,7 @@ class FProjSimplex(Entry):
 
 class FProjL1(FProjSimplex):
     name = 'f_proj_l1'
+    complex_ok = True
 
     def odl(self, space, p, n):
         return (lambda sigma: _Callable(PO.proj_l1, space, p['diameter'],
@@ -534,6 +564,7 @@ class _Class(Entry):
 
 class CLpNorm(_Class):
     name = 'LpNorm'
+    complex_ok = True
     weight = 4
     classes = ({'p': 1.0}, {'p': 2.0}, {'p': INF}, {'p': 1.5}, {'p': 0.0})
 
@@ -562,6 +593,7 @@ def _pstr(p):
 
 class CL1(_Class):
     name = 'L1Norm'
+    complex_ok = True
     kinds = ('T', 'P', 'G')
     sigma_kinds = ('scalar', 'element', 'arraylike')
     weight = 2
@@ -575,6 +607,7 @@ class CL1(_Class):
 
 class CL2(_Class):
     name = 'L2Norm'
+    complex_ok = True
     kinds = ('T', 'P', 'G')
     weight = 2
 
@@ -587,6 +620,7 @@ class CL2(_Class):
 
 class CL2Sq(_Class):
     name = 'L2NormSquared'
+    complex_ok = True
     kinds = ('T', 'P', 'G')
     sigma_kinds = ('scalar', 'element', 'arraylike')
     weight = 2
@@ -600,6 +634,7 @@ class CL2Sq(_Class):
 
 class CGroupL1(_Class):
     name = 'GroupL1Norm'
+    complex_ok = True
     kinds = ('P',)
     weight = 3
     classes = ({'p': None}, {'p': 1.0}, {'p': 2.0}, {'p': INF})
@@ -622,6 +657,7 @@ class CGroupL1(_Class):
 
 class CIndGroupBall(_Class):
     name = 'IndicatorGroupL1UnitBall'
+    complex_ok = True
     kinds = ('P',)
     weight = 3
     classes = ({'p': None}, {'p': INF}, {'p': 2.0}, {'p': 1.0})
@@ -644,6 +680,7 @@ class CIndGroupBall(_Class):
 
 class CIndLpBall(_Class):
     name = 'IndicatorLpUnitBall'
+    complex_ok = True
     weight = 4
     classes = ({'p': 1.0}, {'p': 2.0}, {'p': INF}, {'p': 1.5})
 
@@ -689,6 +726,7 @@ class CIndLinfBallEl(CIndLpBall):
 
 class CConst(_Class):
     name = 'ConstantFunctional'
+    complex_ok = True
     kinds = ('T', 'P', 'G')
     weight = 0.5
     classes = ({'c': 0.0}, {'c': 2.5})
@@ -705,6 +743,7 @@ class CConst(_Class):
 
 class CZero(_Class):
     name = 'ZeroFunctional'
+    complex_ok = True
     kinds = ('T', 'P', 'G')
     weight = 0.3
 
@@ -746,8 +785,9 @@ class CIndBox(_Class):
         return 'IndicatorBox({})'.format(p['kind'])
 
     def make(self, space, p):
-        return S.IndicatorBox(space, _box_arg(space, p['lower']),
-                              _box_arg(space, p['upper']))
+        like = p.get('like', 'element')
+        return S.IndicatorBox(space, _box_arg(space, p['lower'], like),
+                              _box_arg(space, p['upper'], like))
 
     def ref(self, rsp, p):
         return _box_ref(rsp, p)
@@ -766,6 +806,7 @@ class CIndNonneg(_Class):
 
 class CIndZero(_Class):
     name = 'IndicatorZero'
+    complex_ok = True
     kinds = ('T', 'P', 'G')
     weight = 0.7
     classes = ({'c': 0.0}, {'c': 2.0})
@@ -905,6 +946,7 @@ class CIndSum(_Class):
 
 class CHuber(_Class):
     name = 'Huber'
+    complex_ok = True
     kinds = ('T', 'P')
     weight = 3
     classes = ({'gamma': 0.0}, {'gamma': 0.4}, {'gamma': 2.5})
@@ -956,6 +998,62 @@ class CQuadNoProx(_Class):
         return R.RConst(rsp, 0.0)
 
 
+class CSimple(_Class):
+    """simple_functional(space, fcall, prox=P, convex_conj_prox=Q): the
+    user-supplied proximal factories are handed through by ``.proximal``,
+    ``.convex_conj.proximal`` and ``.convex_conj.convex_conj.proximal``
+    (documented parameters of `simple_functional`); without ``prox`` the
+    proximal is not offered (NotImplementedError).  P, Q are the factories
+    of lam * N and its conjugate, N in {1-norm, 2-norm, squared 2-norm}."""
+    name = 'simple_functional'
+    kinds = ('T', 'P', 'G')
+    complex_ok = True
+    weight = 1
+    classes = ({'side': 'primal', 'base': 'l1'},
+               {'side': 'conj', 'base': 'l2'},
+               {'side': 'biconj', 'base': 'l2sq'},
+               {'side': 'noprox'})
+
+    def params(self, draw, rsp):
+        return {'base': draw(st.sampled_from(['l1', 'l2', 'l2sq'])),
+                'lam': draw(LAMS),
+                'side': draw(st.sampled_from(['primal', 'primal', 'conj',
+                                              'conj', 'biconj', 'noprox']))}
+
+    def site(self, p):
+        return 'simple_functional({})'.format(p['side'])
+
+    def expect(self, p):
+        return 'nie' if p['side'] == 'noprox' else None
+
+    def make(self, space, p):
+        lam = float(p['lam'])
+        norm = {'l1': S.L1Norm, 'l2': S.L2Norm,
+                'l2sq': S.L2NormSquared}[p['base']](space)
+        if p['side'] == 'noprox':
+            return S.simple_functional(space, fcall=lambda x: lam * norm(x))
+        f = S.simple_functional(
+            space, fcall=lambda x: lam * norm(x),
+            prox=BY_NAME['f_' + p['base']].odl(
+                space, {'lam': lam, 'g': None}, None)[0],
+            convex_conj_fcall=lambda x: (lam * norm).convex_conj(x),
+            convex_conj_prox=BY_NAME['f_cc_' + p['base']].odl(
+                space, {'lam': lam, 'g': None}, None)[0])
+        if p['side'] == 'conj':
+            return f.convex_conj
+        if p['side'] == 'biconj':
+            return f.convex_conj.convex_conj
+        return f
+
+    def ref(self, rsp, p):
+        if p['side'] == 'noprox':
+            return R.RConst(rsp, 0.0)
+        if p['side'] == 'conj':
+            return BY_NAME['f_cc_' + p['base']].conj(rsp, p['lam'])
+        return BY_NAME['f_' + p['base']].ref(rsp, {'lam': p['lam'],
+                                                   'g': None})
+
+
 ENTRIES = [FL1(), FL2(), FL2Sq(), FL1L2(), FCCL1(), FCCL2(), FCCL2Sq(),
            FCCL1L2(), FLinf(), FCCLinf(), FBox(), FBoxBad(), FNonneg(),
            FConst(), FHuber(), FCCKL(), FCCKLCE(), FProjSimplex(), FProjL1(),
@@ -963,7 +1061,7 @@ ENTRIES = [FL1(), FL2(), FL2Sq(), FL1L2(), FCCL1(), FCCL2(), FCCL2Sq(),
            CIndLpBall(), CIndLpBallProd(), CIndLinfBallEl(), CConst(),
            CZero(), CZeroNegArg(), CIndBox(), CIndNonneg(), CIndZero(), CKL(), CKLConj(),
            CKLCE(), CKLCEConj(), CNuclear(), CIndNuclearBall(), CIndSimplex(),
-           CIndSum(), CHuber(), CQuadLinConj(), CQuadNoProx()]
+           CIndSum(), CHuber(), CQuadLinConj(), CQuadNoProx(), CSimple()]
 BY_NAME = {e.name: e for e in ENTRIES}
 
 
@@ -997,7 +1095,9 @@ def known_region(site, rsp):
     leaf, prod = rsp.leaf_values(), rsp.prod_kind()
     if site in ('LpNorm(inf)', 'f_linf', 'IndicatorLpUnitBall(1)',
                 'f_cc_linf', 'f_proj_l1'):
-        return leaf != 'unit'
+        # weighted spaces; complex spaces (proj_l1 uses sign(x), which is
+        # not the phase factor x/|x|)
+        return leaf != 'unit' or rsp.cplx
     if site in ('IndicatorSimplex', 'f_proj_simplex',
                 'IndicatorSumConstraint'):
         return leaf == 'nonuniform'
@@ -1006,8 +1106,45 @@ def known_region(site, rsp):
     if site in ('NuclearNorm(1,inf)', 'IndicatorNuclearNormUnitBall(inf,1)'):
         return True
     if site in ('Huber', 'f_huber'):
-        return rsp.parts is not None
+        # vector fields (crash); complex scalar fields (sign(x) is not the
+        # phase factor x/|x|)
+        return rsp.parts is not None or rsp.cplx
     return False
+
+
+def conj_bypasses_leaf(fd, mode):
+    """``Huber(X, gamma).convex_conj`` is an explicit functional (quadratic
+    perturbation of the conjugate of the (group) 1-norm) whose proximal
+    does not go through ``Huber.proximal``: it is certified on its own (by
+    the Moreau reduction onto the Huber value) also where the proximal of
+    the Huber leaf itself is a known finding (vector fields, complex
+    spaces)."""
+    return (mode == 'functional' and fd['t'] == 'conj' and
+            fd['f']['t'] == 'leaf' and fd['f']['name'] == 'Huber')
+
+
+def uses_known_leaf(fd, rsp, sigma_kind, mode):
+    """The proximal of the tree goes through the proximal of a leaf that
+    lies in a known-finding region."""
+    t = fd['t']
+    if t == 'leaf':
+        site = BY_NAME[fd['name']].site(fd['params'])
+        return (known_region(site, rsp) or
+                known_step_region(site, rsp, sigma_kind))
+    if conj_bypasses_leaf(fd, mode):
+        return False
+    if t == 'sepsum':
+        sk = 'scalar' if sigma_kind == 'list' else sigma_kind
+        return any(uses_known_leaf(p, rs, sk, mode)
+                   for p, rs in zip(fd['parts'], rsp.parts))
+    return uses_known_leaf(fd['f'], rsp, sigma_kind, mode)
+
+
+def known_step_region(site, rsp, sigma_kind):
+    """Known-finding regions that depend on the kind of step: the L1
+    proximal with a per-point step on a complex space (C07-K8)."""
+    return (rsp.cplx and sigma_kind in ('element', 'arraylike') and
+            site in ('f_l1(g)', 'f_l1(nog)', 'L1Norm'))
 
 
 # --------------------------------------------------------------------------
@@ -1051,6 +1188,8 @@ def build_ref(fd, rsp):
         return R.RTranslate(h, vec(fd['y'], n))
     if t == 'argscale':
         s = fd['s']
+        if is_complex_scalar(s):
+            return R.RConst(rsp, 0.0)      # documented rejection, no value
         if not isinstance(s, dict) and float(s) == 0.0:
             return R.RConst(rsp, h.value(np.zeros(n)))
         return R.RArgScale(h, vec(s, n) if isinstance(s, dict) else s)
@@ -1097,11 +1236,18 @@ def site_of(fd):
     return '{}({})'.format(rule_name(fd), site_of(fd['f']))
 
 
+def is_complex_scalar(s):
+    return isinstance(s, dict) and 're' in s
+
+
 def rule_name(fd):
     name = fd['t']
     if name == 'argscale':
+        if is_complex_scalar(fd['s']):
+            return 'argscale_complex'
         if isinstance(fd['s'], dict):
-            return 'argscale_el'
+            return ('argscale_el' if fd.get('as', 'element') == 'element'
+                    else 'argscale_seq')
         if float(fd['s']) == 0.0:
             return 'argscale_zero'
     if name == 'leftscale' and float(fd['s']) == 0.0:
@@ -1122,6 +1268,8 @@ def is_linear_tree(fd):
     if t == 'leftscale':
         return float(fd['s']) == 0.0 or is_linear_tree(fd['f'])
     if t == 'argscale':
+        if is_complex_scalar(fd['s']):
+            return False
         if not isinstance(fd['s'], dict) and float(fd['s']) == 0.0:
             # ConstantFunctional(f(0)); generated for f(0) = 0 except on
             # ConstantFunctional(c) itself
@@ -1208,6 +1356,10 @@ def expected_rejection(fd):
     if t == 'leftscale' and fd['s'] < 0 and not is_linear_tree(fd['f']):
         # (a linear functional stays convex under any real factor)
         return 'value'
+    if t == 'argscale' and is_complex_scalar(fd['s']):
+        # documented: the scaling "may not contain any nonzero imaginary
+        # parts" (ValueError: Complex scaling not supported)
+        return 'value'
     if t == 'quadpert' and fd['a'] < 0:
         return 'value'
     return None
@@ -1235,12 +1387,20 @@ def build_odl(fd, space, mode, rsp):
                 raise HarnessError('separable sum domain differs')
             return f.proximal, f
         _, h = build_odl(fd['f'], space, mode, rsp)
+        # 'via' == 'class': the documented class constructor instead of the
+        # operator syntax / method (nonzero scalars only)
+        cls = fd.get('via') == 'class'
         if t == 'translated':
-            f = h.translated(flat.unflat(vec(fd['y'], n), space))
+            y = flat.unflat(vec(fd['y'], n), space)
+            f = S.FunctionalTranslation(h, y) if cls else h.translated(y)
         elif t == 'argscale':
-            f = h * float(fd['s'])
+            sc = fd['s']
+            sc = (complex(sc['re'], sc['im']) if is_complex_scalar(sc)
+                  else float(sc))
+            f = S.FunctionalRightScalarMult(h, sc) if cls else h * sc
         elif t == 'leftscale':
-            f = float(fd['s']) * h
+            f = (S.FunctionalLeftScalarMult(h, float(fd['s'])) if cls
+                 else float(fd['s']) * h)
         elif t == 'quadpert':
             u = fd.get('u')
             f = S.FunctionalQuadraticPerturb(
@@ -1249,7 +1409,8 @@ def build_odl(fd, space, mode, rsp):
                              flat.unflat(vec(u, n), space)),
                 constant=fd.get('c', 0.0))
         elif t == 'addconst':
-            f = h + float(fd['c'])
+            f = (S.FunctionalScalarSum(h, float(fd['c'])) if cls
+                 else h + float(fd['c']))
         elif t == 'conj':
             f = h.convex_conj
         elif t == 'bregman':
@@ -1275,8 +1436,16 @@ def build_odl(fd, space, mode, rsp):
             fac, flat.unflat(vec(fd['y'], n), space)), None
     if t == 'argscale':
         s = fd['s']
-        if isinstance(s, dict):
+        if is_complex_scalar(s):
+            s = complex(s['re'], s['im'])
+        elif isinstance(s, dict):
             s = flat.unflat(vec(s, n), space)
+            form = fd.get('as', 'element')
+            if form != 'element':
+                # documented: "float or sequence of floats or space element"
+                s = np.array(s.asarray())
+                if form == 'list':
+                    s = s.tolist()
         return PO.proximal_arg_scaling(fac, s), None
     if t == 'quadpert':
         u = fd.get('u')
@@ -1331,9 +1500,30 @@ def _weighting(draw, shape, kinds):
 
 
 LEAF_KINDS = ('rn', 'rn_const', 'rn_array', 'discr', 'rn32', 'discr32')
+# complex leaves of the fixed sweep (entries with ``complex_ok`` only):
+# complex128 with unit / array weighting, complex128 discretizations,
+# complex64 (unit / const); the random part adds const-weighted complex128
+CPLX_LEAF_KINDS = ('cn', 'cn_array', 'cdiscr', 'cn64')
 # weights of the kinds in the random part (float32 about one case in six)
 LEAF_KINDS_RANDOM = ('rn', 'rn_const', 'rn_array', 'discr') * 3 + \
     ('rn32', 'rn32', 'discr32')
+# ... and for entries that admit complex spaces (complex about one in five)
+LEAF_KINDS_RANDOM_CPLX = LEAF_KINDS_RANDOM + ('cn', 'cn_const', 'cn_array',
+                                              'cdiscr')
+_KIND_DTYPE = {'rn32': 'float32', 'discr32': 'float32', 'cn': 'complex128',
+               'cn_const': 'complex128', 'cn_array': 'complex128',
+               'cdiscr': 'complex128', 'cn64': 'complex64'}
+_KIND_BASE = {'rn32': None, 'discr32': 'discr', 'cn': 'rn',
+              'cn_const': 'rn_const', 'cn_array': 'rn_array',
+              'cdiscr': 'discr', 'cn64': None}
+
+
+def leaf_kinds_random(e):
+    return LEAF_KINDS_RANDOM_CPLX if e.complex_ok else LEAF_KINDS_RANDOM
+
+
+def is_complex_dtype(dt):
+    return str(dt).startswith('complex')
 
 
 @st.composite
@@ -1341,16 +1531,13 @@ def leaf_spaces(draw, sizes=('tiny', 'small', 'medium'),
                 kinds=LEAF_KINDS_RANDOM, dtype=None):
     """Leaf space descriptor.  ``kinds``: rn / rn_const / rn_array / discr
     (float64 unless ``dtype`` says otherwise), rn32 / discr32 (float32,
-    weighting none or const).  ``dtype`` forces the dtype (all leaves of a
-    product space share one)."""
+    weighting none or const), cn / cn_const / cn_array / cdiscr
+    (complex128), cn64 (complex64, weighting none or const).  ``dtype``
+    forces the dtype (all leaves of a product space share one)."""
     kind = draw(st.sampled_from(list(kinds)))
-    if dtype == 'float64' and kind.endswith('32'):
-        kind = {'rn32': 'rn', 'discr32': 'discr'}[kind]
-    dt = dtype or ('float32' if kind.endswith('32') else 'float64')
-    if kind == 'rn32':
-        kind = draw(st.sampled_from(['rn', 'rn_const']))
-    if kind == 'discr32':
-        kind = 'discr'
+    dt = dtype or _KIND_DTYPE.get(kind, 'float64')
+    if kind in _KIND_BASE:
+        kind = _KIND_BASE[kind] or draw(st.sampled_from(['rn', 'rn_const']))
     size = draw(st.sampled_from(list(sizes)))
     if kind == 'discr':
         pool = {'tiny': [s for s in DISCR_SHAPES if np.prod(s) <= 4],
